@@ -3,17 +3,23 @@ The compositions along `PipelineX.convertX` for the generalised token grammar (`
 of the grammar (`HtmlBound`: number of raw-HTML stash entries, footnotes flag) instantiated — this file has NO
 `variable [HtmlBound]`.
 
-1. fenced_code off (stash empty, `⟨0, x.footnotes⟩`): `convertX_noctl_fn`, `convertX_noctl_all_fn` (worker ff's
-   statements, proved through the generic tails `tail_fn`/`tail_nofn` of `Lemmas/F/PlaceholdersXFn.lean`).
-2. ALL ELEVEN flags: `convertX_noctl_blk` from the preprocessor facts `PrepOK`, with the block stage on texts with
-   raw-HTML placeholders (worker fc2: `XT.block_stage_own`); `prepOK_of`, `fenceOK_of_domain` (worker fc2:
-   `XT.fencedRunA_own`), `convertX_noctl_eleven` on the domain.
+1. ALL ELEVEN flags, with or without ampersands (`amp`): `convertX_noctl_blk` from the preprocessor facts `PrepOK amp`,
+   with the block stage on texts with raw-HTML placeholders (worker fc2: `XT.block_stage_own`); the parameters of the
+   grammar are `⟨xs.st.html.length, x.footnotes, amp⟩`: the length of the raw-HTML stash BEHIND the inline stage (which
+   appends the entities that the entity pattern finds when `amp`), the footnotes flag, the ampersand flag.
+2. the preprocessors: `prepOK_of` (normalize_whitespace, fenced_code — worker fc2: `XT.fencedRunA_own` —, and the raw-HTML
+   preprocessor `Extract.extract`, which only inserts `;` behind unterminated character references: worker amp,
+   `Lemmas/F/PlaceholdersAmpExtract.lean`).
+3. on the domains: `convertX_noctl_eleven` ("no `<`, no `&`": the statement of workers fc1/fc2, now the instance
+   `amp = false`), `convertX_noctl_eleven_amp` ("no `<`"), and the fenced_code-off corollaries `convertX_noctl_fn`,
+   `convertX_noctl_all_fn` (worker ff's statements).
 
 Core Lean only.
 -/
 import MdVerif.Lemmas.F.PlaceholdersXFn
 import MdVerif.Lemmas.F.PlaceholdersXTBlock5
 import MdVerif.Lemmas.F.PlaceholdersXTFence
+import MdVerif.Lemmas.F.PlaceholdersAmpExtract
 
 namespace MdVerif.NoCtlXF
 open Py
@@ -27,58 +33,24 @@ open MdVerif.NoCtlX
 
 /-- the default escapable characters are ordinary ones that occur in no token -/
 theorem escOK_default0 : EscOK Generated.escapedChars :=
-  letI : HtmlBound := ⟨0, false⟩
+  letI : HtmlBound := ⟨0, false, false⟩
   escOK_default
 
 /-- with footnotes off `AbbrKeysOKF` is (stronger than) `AbbrKeysOK` -/
 theorem abbrKeysOK_of_F0 {x : PipelineX.Exts} (hfn : x.footnotes = false) {cfg : Pipeline.Cfg} {src : Str}
     (h : AbbrKeysOKF x cfg src) : AbbrKeysOK x cfg src :=
-  letI : HtmlBound := ⟨0, false⟩
+  letI : HtmlBound := ⟨0, false, false⟩
   abbrKeysOK_of_F hfn h
 
-/-! ## 1. fenced_code off -/
-
-/-- **end to end with footnotes on** (fenced code off, every other flag arbitrary), on the domain of
-    `C10_partial_links` (with wikilinks: no `[` immediately before a blank) -/
-theorem convertX_noctl_fn {x : PipelineX.Exts} (hfc : x.fencedCode = false) (hfn : x.footnotes = true)
-    {cfg : Pipeline.Cfg} (hcfg : EscOK cfg.esc) {src out : Str} (hd : C10DomainL cfg.tab src)
-    (hq : Qw x.wikilinks (Normalize.normalize cfg.tab src)) (habbr : AbbrKeysOKF x cfg src)
-    (h : PipelineX.convertX x cfg src = .ok out) : NoCtl out := by
-  letI : HtmlBound := ⟨0, true⟩
-  haveI : FnOn := ⟨rfl⟩
-  rcases convertX_fn_ok hfn h with rfl | ⟨text, stash, root, log, div, log', t, xs, t', u, html, hp, hb, hm, hr, hdp, hl, hf⟩
-  · exact noCtl_nil
-  · obtain ⟨rfl, rfl⟩ := prepareX_nofence hfc hp
-    have hP : PW x.wikilinks (Pipeline.prepare cfg src) :=
-      ⟨prepare_domB cfg hd, by rw [prepare_eq_normalize cfg hd]; exact hq⟩
-    obtain ⟨hroot, hlog⟩ := BlkX.parseDocumentXT_strs (strDomX_adj3q x.wikilinks) x.tables x.blockCfg cfg.tab _ hP hb
-    have hrootQ : root.Forall (FnQ x.wikilinks) := Node.Forall.mono (fun _ hn => fnQ_of_bnodeXP hn) root hroot
-    refine tail_fn hfn hcfg ⟨Nat.le_refl _, hfn.symm, by simp⟩ hrootQ hlog hm hr hdp hl hf ?_
-    intro hlog' hxa
-    have hk := habbr hxa
-    rw [hb] at hk
-    simp only [fnLog, hfn, if_true, hm] at hk
-    exact ⟨abbrs_noctl hlog', hk.1, noFrnAbbr_spec hk.2 (fun _ => rfl) (fun h0 => absurd h0 (Nat.lt_irrefl 0))⟩
-
-/-- **end to end with every extension but fenced_code** -/
-theorem convertX_noctl_all_fn {x : PipelineX.Exts} (hfc : x.fencedCode = false)
-    {cfg : Pipeline.Cfg} (hcfg : EscOK cfg.esc) {src out : Str}
-    (hd : C10DomainL cfg.tab src) (hq : Qw x.wikilinks (Normalize.normalize cfg.tab src))
-    (habbr : AbbrKeysOKF x cfg src) (h : PipelineX.convertX x cfg src = .ok out) : NoCtl out := by
-  cases hfn : x.footnotes with
-  | true => exact convertX_noctl_fn hfc hfn hcfg hd hq habbr h
-  | false =>
-    letI : HtmlBound := ⟨0, true⟩
-    exact convertX_noctl_all hfc hfn (escOK_orig_of_F hcfg) hd hq (abbrKeysOK_of_F hfn habbr) h
-
-/-! ## 2. all eleven flags -/
+/-! ## 1. all eleven flags -/
 
 /-- **what the preprocessors deliver** (normalize_whitespace 30, fenced_code_block 25, html_block 20): in the text
     handed to the block parser every STX/ETX belongs to a live raw-HTML placeholder that is a block of its own
-    (`OwnBlock`, worker fc2), the text is of the domain, and no stash entry holds STX or ETX -/
-def PrepOK (x : PipelineX.Exts) (cfg : Pipeline.Cfg) (src : Str) : Prop :=
+    (`OwnBlock`, worker fc2), the text is of the domain (`amp`: with or without ampersands), and no stash entry holds
+    STX or ETX -/
+def PrepOK (amp : Bool) (x : PipelineX.Exts) (cfg : Pipeline.Cfg) (src : Str) : Prop :=
   ∀ text stash, PipelineX.prepareX x cfg src = .ok (text, stash) →
-    OwnBlock stash.length text ∧ DomB text ∧ Adj3 text ∧ Qw x.wikilinks text ∧ ∀ e ∈ stash, NoCtl e
+    OwnBlock stash.length text ∧ DomAmp amp text ∧ Adj3 text ∧ Qw x.wikilinks text ∧ ∀ e ∈ stash, NoCtl e
 
 /-- the abbreviation table that `AbbrTreeprocessor` works with: the abbreviations of the log of the block stage and
     of `FootnoteTreeprocessor` (`none`: some stage before it does not answer) -/
@@ -90,24 +62,33 @@ def abbrsX (x : PipelineX.Exts) (cfg : Pipeline.Cfg) (src : Str) : Option (List 
     | none => none
   | _ => none
 
-/-- the hypothesis on the abbreviations for all eleven flags: no abbreviation of the document — those defined inside
-    footnote bodies included — is a number (F-C10-6), with footnotes none is the body of one of the two footnote tokens,
-    with fenced_code none can cut a raw-HTML placeholder (`htmlCutKey`: `wzxhzdk`, `wzxhzdk:`, `wzxhzdk:`+digits, `:`,
-    `:`+digits); read off the log of the block stage and of `FootnoteTreeprocessor`; decidable -/
-def AbbrKeysOKA (x : PipelineX.Exts) (cfg : Pipeline.Cfg) (src : Str) : Prop :=
+/-- the hypothesis on the abbreviations with a flag `hc` "the keys that cut a raw-HTML placeholder are excluded": no
+    abbreviation of the document — those defined inside footnote bodies included — is a number (F-C10-6), with
+    footnotes none is the body of one of the two footnote tokens, with `hc` none can cut a raw-HTML placeholder
+    (`htmlCutKey`: `wzxhzdk`, `wzxhzdk:`, `wzxhzdk:`+digits, `:`, `:`+digits); read off the log of the block stage and of
+    `FootnoteTreeprocessor`; decidable -/
+def AbbrKeysOKH (hc : Bool) (x : PipelineX.Exts) (cfg : Pipeline.Cfg) (src : Str) : Prop :=
   x.abbr = true → ∀ abbrs, abbrsX x cfg src = some abbrs →
-    noDigitsAbbr abbrs = true ∧ noFrnAbbr x.footnotes x.fencedCode abbrs = true
+    noDigitsAbbr abbrs = true ∧ noFrnAbbr x.footnotes hc abbrs = true
 
-instance (x : PipelineX.Exts) (cfg : Pipeline.Cfg) (src : Str) : Decidable (AbbrKeysOKA x cfg src) := by
-  unfold AbbrKeysOKA
+instance (hc : Bool) (x : PipelineX.Exts) (cfg : Pipeline.Cfg) (src : Str) : Decidable (AbbrKeysOKH hc x cfg src) := by
+  unfold AbbrKeysOKH
   cases abbrsX x cfg src with
   | none => exact isTrue (by intro _ a ha; cases ha)
   | some a =>
     exact decidable_of_iff
-      (x.abbr = true → noDigitsAbbr a = true ∧ noFrnAbbr x.footnotes x.fencedCode a = true)
+      (x.abbr = true → noDigitsAbbr a = true ∧ noFrnAbbr x.footnotes hc a = true)
       ⟨fun H hx b hb => by cases hb; exact H hx, fun H hx => H hx a rfl⟩
 
-/-- without fenced_code the raw-HTML stash is empty -/
+/-- the hypothesis on the abbreviations for a source without `&`: the keys that cut a raw-HTML placeholder are
+    excluded when fenced_code is on (no other raw-HTML placeholder exists) -/
+abbrev AbbrKeysOKA (x : PipelineX.Exts) (cfg : Pipeline.Cfg) (src : Str) : Prop := AbbrKeysOKH x.fencedCode x cfg src
+
+/-- the hypothesis on the abbreviations for a source with `&`: the keys that cut a raw-HTML placeholder are excluded,
+    because the entity pattern writes such placeholders (F-C10-6, second form: `&amp;\n*[0]:T`) -/
+abbrev AbbrKeysOKAmp (x : PipelineX.Exts) (cfg : Pipeline.Cfg) (src : Str) : Prop := AbbrKeysOKH true x cfg src
+
+/-- without fenced_code the raw-HTML stash of the preprocessors is empty -/
 theorem stash_pos_fenced {x : PipelineX.Exts} {cfg : Pipeline.Cfg} {src text : Str} {stash : List Str}
     (hp : PipelineX.prepareX x cfg src = .ok (text, stash)) (h : 0 < stash.length) : x.fencedCode = true := by
   cases hfc : x.fencedCode with
@@ -128,67 +109,78 @@ theorem noCtl_of_ownBlock_zero {s : Str} (h : OwnBlock 0 s) : NoCtl s := by
     obtain ⟨n, _, hn, _⟩ := h.2 u w e
     exact absurd hn (Nat.not_lt_zero n)
 
-theorem allC_pDom_of {s : Str} (hn : NoCtl s) (hd : DomB s) : Blk.AllC pDom s := by
-  intro c hc
-  have h1 : c ≠ STX := fun e => hn.1 (e ▸ hc)
-  have h2 : c ≠ ETX := fun e => hn.2 (e ▸ hc)
-  simp only [Bool.and_eq_true]
-  exact ⟨by simp [Blk.okc, h1, h2], hd c hc⟩
-
 /-- **the block stage for all flags**: fc2's `block_stage_own` with fenced_code (positive tab length), b1's
     `parseDocumentXT_strs` without (any tab length) -/
 theorem block_stage_all [HtmlBound] {x : PipelineX.Exts} {cfg : Pipeline.Cfg}
     (htab : x.fencedCode = true → 0 < cfg.tab) {src text : Str} {stash : List Str}
-    (hh : HtmlBound.h = stash.length) (hp : PipelineX.prepareX x cfg src = .ok (text, stash))
-    (ho : OwnBlock stash.length text) (hd : DomB text) (ha : Adj3 text) (hq : Qw x.wikilinks text)
+    (hh : stash.length ≤ HtmlBound.h) (hp : PipelineX.prepareX x cfg src = .ok (text, stash))
+    (ho : OwnBlock stash.length text) (hd : DomA text) (ha : Adj3 text) (hq : Qw x.wikilinks text)
     {root : Node} {log : Block.Refs}
     (hb : BlockExt.parseDocumentXT x.tables x.blockCfg cfg.tab text = some (root, log)) :
-    root.Forall (FnQ x.wikilinks) ∧ BlkX.LogC pDom (PW x.wikilinks) log := by
+    root.Forall (FnQ x.wikilinks) ∧ BlkX.LogC pDomA (PW x.wikilinks) log := by
   cases hfc : x.fencedCode with
   | true =>
-    rw [← hh] at ho
-    obtain ⟨hroot, hlog⟩ := XT.block_stage_own x.wikilinks x.tables x.blockCfg (htab hfc) ho hd ha hq hb
+    obtain ⟨hroot, hlog⟩ := XT.block_stage_own x.wikilinks x.tables x.blockCfg (htab hfc) (XT.ownBlock_mono hh ho)
+      hd ha hq hb
     exact ⟨Node.Forall.mono (fun _ hn => hn) root hroot, hlog⟩
   | false =>
     obtain ⟨-, rfl⟩ := prepareX_nofence hfc hp
-    have hP : PW x.wikilinks text := ⟨⟨allC_pDom_of (noCtl_of_ownBlock_zero ho) hd, ha⟩, hq⟩
-    obtain ⟨hroot, hlog⟩ := BlkX.parseDocumentXT_strs (strDomX_adj3q x.wikilinks) x.tables x.blockCfg cfg.tab _ hP hb
+    have hP : PW x.wikilinks text := ⟨⟨allC_pDomA_of (noCtl_of_ownBlock_zero ho) hd, ha⟩, hq⟩
+    obtain ⟨hroot, hlog⟩ := BlkX.parseDocumentXT_strs (strDomX_adj3qA x.wikilinks) x.tables x.blockCfg cfg.tab _ hP hb
     exact ⟨Node.Forall.mono (fun _ hn => fnQ_of_bnodeXP hn) root hroot, hlog⟩
 
-/-- **end to end, all eleven flags**, from the facts about the preprocessors (`PrepOK`) -/
-theorem convertX_noctl_blk {x : PipelineX.Exts} {cfg : Pipeline.Cfg} (hcfg : EscOK cfg.esc)
+/-- **end to end, all eleven flags, with (`amp = true`) or without ampersands**, from the facts about the preprocessors
+    (`PrepOK amp`).  The keys that cut a raw-HTML placeholder must be excluded (`hc = true`) when fenced_code is on and
+    when the domain has ampersands: the only two sources of raw-HTML placeholders. -/
+theorem convertX_noctl_blk (amp hc : Bool) {x : PipelineX.Exts} {cfg : Pipeline.Cfg} (hcfg : EscOK cfg.esc)
     (htab : x.fencedCode = true → 0 < cfg.tab)
-    {src out : Str} (hprep : PrepOK x cfg src) (habbr : AbbrKeysOKA x cfg src)
+    {src out : Str} (hprep : PrepOK amp x cfg src) (habbr : AbbrKeysOKH hc x cfg src)
+    (hhc1 : x.fencedCode = true → hc = true) (hhc2 : amp = true → hc = true)
     (h : PipelineX.convertX x cfg src = .ok out) : NoCtl out := by
   cases hfn : x.footnotes with
   | true =>
     have hunf := by
-      letI : HtmlBound := ⟨0, true⟩
+      letI : HtmlBound := ⟨0, true, false⟩
       exact convertX_fn_ok hfn h
     rcases hunf with rfl | ⟨text, stash, root, log, div, log', t, xs, t', u, html, hp, hb, hm, hr, hdp, hl, hf⟩
     · exact noCtl_nil
     · obtain ⟨ho, hd, ha, hq, he⟩ := hprep text stash hp
-      letI : HtmlBound := ⟨stash.length, x.footnotes⟩
+      letI : HtmlBound := ⟨xs.st.html.length, x.footnotes, amp⟩
       haveI : FnOn := ⟨hfn⟩
-      obtain ⟨hrootQ, hlog⟩ := block_stage_all htab rfl hp ho hd ha hq hb
-      refine tail_fn hfn hcfg ⟨Nat.le_refl _, rfl, he⟩ hrootQ hlog hm hr hdp hl hf ?_
-      intro hlog' hxa
+      have hle : stash.length ≤ xs.st.html.length := runX_hle hr
+      obtain ⟨hrootQ, hlog⟩ := block_stage_all htab hle hp ho (domA_of_domAmp hd) ha hq hb
+      refine tail_fn hfn hcfg rfl he hrootQ hlog hm hr rfl hdp hl hf ?_
+      intro hhtml hlog' hxa
       have hk := habbr hxa (BlockExt.abbrsOf log') (by simp only [abbrsX, hp, hb, fnLog, hfn, if_true, hm, Option.map_some])
-      exact ⟨abbrs_noctl hlog', hk.1, noFrnAbbr_spec hk.2 (fun _ => hfn) (fun h0 => stash_pos_fenced hp h0)⟩
+      refine ⟨abbrs_noctlA hlog', hk.1, noFrnAbbr_spec hk.2 (fun _ => hfn) (fun h0 => ?_)⟩
+      cases hamp : amp with
+      | true => exact hhc2 hamp
+      | false =>
+        have e : xs.st.html = stash := hhtml.2 hamp
+        have h0' : 0 < xs.st.html.length := h0
+        rw [e] at h0'
+        exact hhc1 (stash_pos_fenced hp h0')
   | false =>
     rcases convertX_front_ok hfn h with rfl | ⟨text, stash, root, log, t, xs, u, html, hp, hb, hr, hl, hf⟩
     · exact noCtl_nil
     · obtain ⟨ho, hd, ha, hq, he⟩ := hprep text stash hp
-      letI : HtmlBound := ⟨stash.length, x.footnotes⟩
-      obtain ⟨hrootQ, hlog⟩ := block_stage_all htab rfl hp ho hd ha hq hb
-      refine tail_nofn hfn hcfg ⟨Nat.le_refl _, rfl, he⟩ hrootQ hlog hr hl hf ?_
-      intro hxa
+      letI : HtmlBound := ⟨xs.st.html.length, x.footnotes, amp⟩
+      have hle : stash.length ≤ xs.st.html.length := runX_hle hr
+      obtain ⟨hrootQ, hlog⟩ := block_stage_all htab hle hp ho (domA_of_domAmp hd) ha hq hb
+      refine tail_nofn hfn hcfg rfl he hrootQ hlog hr rfl hl hf ?_
+      intro hhtml hxa
       have hk := habbr hxa (BlockExt.abbrsOf log)
         (by simp only [abbrsX, hp, hb, fnLog, hfn, Bool.false_eq_true, if_false, Option.map_some])
-      refine ⟨abbrs_noctl hlog, hk.1, noFrnAbbr_spec hk.2 (fun h1 => ?_) (fun h0 => stash_pos_fenced hp h0)⟩
-      exact h1
+      refine ⟨abbrs_noctlA hlog, hk.1, noFrnAbbr_spec hk.2 (fun h1 => h1) (fun h0 => ?_)⟩
+      cases hamp : amp with
+      | true => exact hhc2 hamp
+      | false =>
+        have e : xs.st.html = stash := hhtml.2 hamp
+        have h0' : 0 < xs.st.html.length := h0
+        rw [e] at h0'
+        exact hhc1 (stash_pos_fenced hp h0')
 
-/-! ## 3. the preprocessors -/
+/-! ## 2. the preprocessors -/
 
 /-- a text without STX/ETX has every placeholder in a block of its own -/
 theorem ownBlock_of_noCtl (h : Nat) {s : Str} (hs : NoCtl s) : OwnBlock h s := by
@@ -196,34 +188,41 @@ theorem ownBlock_of_noCtl (h : Nat) {s : Str} (hs : NoCtl s) : OwnBlock h s := b
   · exact absurd (by rw [e]; simp) hs.1
   · exact absurd (by rw [e]; simp) hs.2
 
-/-- **what `FencedBlockPreprocessor` delivers** on a text `t` (worker fc2, `Lemmas/F/PlaceholdersXTFence.lean`) -/
-def FenceOK (wl : Bool) (t : Str) : Prop :=
-  ∀ t' stash, Fenced.fencedRunA t = .ok t' stash →
-    OwnBlock stash.length t' ∧ DomB t' ∧ Adj3 t' ∧ Qw wl t' ∧ ∀ e ∈ stash, NoCtl e
+/-- the source domain without its adjacency clauses: no `<`; no `&` either unless `amp` -/
+theorem domAmp_normalize {amp : Bool} (tab : Nat) {src : Str} (h : DomAmp amp src) :
+    DomAmp amp (Normalize.normalize tab src) := by
+  refine ⟨fun hm => ?_, fun hamp hm => ?_⟩
+  · rcases (Normalize.mem_normalize hm).1 with e | e | hm'
+    · exact absurd e (by decide)
+    · exact absurd e (by decide)
+    · exact h.1 hm'
+  · rcases (Normalize.mem_normalize hm).1 with e | e | hm'
+    · exact absurd e (by decide)
+    · exact absurd e (by decide)
+    · exact h.2 hamp hm'
 
-theorem amp_not_mem_of_domB {s : Str} (h : DomB s) : '&' ∉ s := by
-  intro hm
-  have := h _ hm
-  simp [domCharB] at this
-
-/-- the preprocessors on the domain: normalize_whitespace, the fenced_code preprocessor (when enabled), and the
-    raw-HTML preprocessor, which is the identity on a text without `&` and `<` -/
-theorem prepOK_of {x : PipelineX.Exts} {cfg : Pipeline.Cfg} {src : Str} (hd : C10DomainL cfg.tab src)
-    (hq : Qw x.wikilinks (Normalize.normalize cfg.tab src))
-    (hf : x.fencedCode = true → FenceOK x.wikilinks (Normalize.normalize cfg.tab src)) : PrepOK x cfg src := by
+/-- **the preprocessors on the domain**: normalize_whitespace, the fenced_code preprocessor (when enabled; worker fc2:
+    `XT.fencedRunA_own`), and the raw-HTML preprocessor, which only inserts `;` behind unterminated character references
+    (`extract_semiIns`; the identity on a text without `&`) -/
+theorem prepOK_of {amp : Bool} {x : PipelineX.Exts} {cfg : Pipeline.Cfg} {src : Str} (hd : DomAmp amp src)
+    (ha : Adj3 (Normalize.normalize cfg.tab src)) (hq : Qw x.wikilinks (Normalize.normalize cfg.tab src)) :
+    PrepOK amp x cfg src := by
   intro text stash hp
-  cases hfc : x.fencedCode with
-  | false =>
-    obtain ⟨rfl, rfl⟩ := prepareX_nofence hfc hp
-    have h1 := prepare_domB cfg hd
-    have h2 := allC_domB h1.1
-    refine ⟨ownBlock_of_noCtl _ h2.1, h2.2, h1.2, ?_, by simp⟩
-    rw [prepare_eq_normalize cfg hd]; exact hq
-  | true =>
-    unfold PipelineX.prepareX at hp
-    simp only [hfc, if_true] at hp
-    split at hp
-    · cases hp
+  letI : HtmlBound := ⟨0, false, amp⟩
+  have hn : NoCtl (Normalize.normalize cfg.tab src) := normalize_noctl cfg.tab src
+  have hdn : DomA (Normalize.normalize cfg.tab src) := domA_of_domAmp (domAmp_normalize cfg.tab hd)
+  -- behind the raw-HTML preprocessor
+  have key : ∀ t' : Str, OwnBlock stash.length t' → DomA t' → Adj3 t' → Qw x.wikilinks t' →
+      OwnBlock stash.length (Extract.extract t') ∧ DomAmp amp (Extract.extract t') ∧ Adj3 (Extract.extract t') ∧
+        Qw x.wikilinks (Extract.extract t') := by
+    intro t' h1 h2 h3 h4
+    have hi := extract_semiIns t'
+    exact ⟨ownBlock_semiIns hi h1, domAmp_of_domA (domA_semiIns hi h2), adj3_semiIns hi h3, qw_semiIns hi h4⟩
+  unfold PipelineX.prepareX at hp
+  simp only at hp
+  split at hp
+  · cases hp
+  · split at hp
     · split at hp
       · cases hp
       · split at hp
@@ -231,27 +230,35 @@ theorem prepOK_of {x : PipelineX.Exts} {cfg : Pipeline.Cfg} {src : Str} (hd : C1
           injection hp with hp
           simp only [Prod.mk.injEq] at hp
           obtain ⟨rfl, rfl⟩ := hp
-          obtain ⟨h1, h2, h3, h4, h5⟩ := hf hfc t' st hrun
-          rw [extract_no_amp (amp_not_mem_of_domB h2)]
-          exact ⟨h1, h2, h3, h4, h5⟩
+          obtain ⟨⟨o1, o2, o3, o4⟩, o5⟩ := XT.fencedRunA_own x.wikilinks hrun hn hdn ha hq
+          obtain ⟨k1, k2, k3, k4⟩ := key t' o1 o2 o3 o4
+          exact ⟨k1, k2, k3, k4, o5⟩
         · cases hp
+    · injection hp with hp
+      simp only [Prod.mk.injEq] at hp
+      obtain ⟨rfl, rfl⟩ := hp
+      obtain ⟨k1, k2, k3, k4⟩ := key _ (ownBlock_of_noCtl _ hn) hdn ha hq
+      exact ⟨k1, k2, k3, k4, by simp⟩
 
-/-- `FencedBlockPreprocessor` on the normalised text of a source of the domain (fc2's `XT.fencedRunA_own`) -/
-theorem fenceOK_of_domain {wl : Bool} {cfg : Pipeline.Cfg} {src : Str} (hd : C10DomainL cfg.tab src)
-    (hq : Qw wl (Normalize.normalize cfg.tab src)) : FenceOK wl (Normalize.normalize cfg.tab src) := by
-  intro t' stash hrun
-  have h1 := prepare_domB cfg hd
-  rw [prepare_eq_normalize cfg hd] at h1
-  have h2 := allC_domB h1.1
-  obtain ⟨⟨o1, o2, o3, o4⟩, o5⟩ := XT.fencedRunA_own wl hrun h2.1 h2.2 h1.2 hq
-  exact ⟨o1, o2, o3, o4, o5⟩
+/-! ## 3. on the domains -/
 
-/-- **end to end, all eleven flags, on the domain** -/
+/-- **end to end, all eleven flags, on the domain without `<` and `&`** (workers fc1/fc2; now the instance `amp = false`
+    of the chain) -/
 theorem convertX_noctl_eleven {x : PipelineX.Exts} {cfg : Pipeline.Cfg} (hcfg : EscOK cfg.esc)
     (htab : x.fencedCode = true → 0 < cfg.tab) {src out : Str} (hd : C10DomainL cfg.tab src)
     (hq : Qw x.wikilinks (Normalize.normalize cfg.tab src)) (habbr : AbbrKeysOKA x cfg src)
     (h : PipelineX.convertX x cfg src = .ok out) : NoCtl out :=
-  convertX_noctl_blk hcfg htab (prepOK_of hd hq (fun _ => fenceOK_of_domain hd hq)) habbr h
+  convertX_noctl_blk false x.fencedCode hcfg htab (prepOK_of (domAmp_of_domB hd.1) hd.2 hq) habbr (fun h => h)
+    (fun h => by cases h) h
+
+/-- **end to end, all eleven flags, on the domain without `<`** — ampersands, entities and character references
+    allowed; the abbreviation keys that cut a raw-HTML placeholder are excluded whether or not fenced_code is on -/
+theorem convertX_noctl_eleven_amp {x : PipelineX.Exts} {cfg : Pipeline.Cfg} (hcfg : EscOK cfg.esc)
+    (htab : x.fencedCode = true → 0 < cfg.tab) {src out : Str} (hlt : '<' ∉ src)
+    (ha : Adj3 (Normalize.normalize cfg.tab src)) (hq : Qw x.wikilinks (Normalize.normalize cfg.tab src))
+    (habbr : AbbrKeysOKAmp x cfg src) (h : PipelineX.convertX x cfg src = .ok out) : NoCtl out :=
+  convertX_noctl_blk true true hcfg htab (prepOK_of ⟨hlt, fun h => by cases h⟩ ha hq) habbr (fun _ => rfl)
+    (fun _ => rfl) h
 
 /-- the flags only weaken the hypothesis on the abbreviations -/
 theorem noFrnAbbr_mono {fn fc : Bool} {abbrs : List (Str × Str)} (h : noFrnAbbr true fc abbrs = true) :
@@ -264,6 +271,22 @@ theorem noFrnAbbr_mono {fn fc : Bool} {abbrs : List (Str × Str)} (h : noFrnAbbr
   rcases h1 with h1 | h1
   · cases h1
   · exact .inr h1
+
+theorem noFrnAbbr_mono_fc {fn fc : Bool} {abbrs : List (Str × Str)} (h : noFrnAbbr fn true abbrs = true) :
+    noFrnAbbr fn fc abbrs = true := by
+  simp only [noFrnAbbr, List.all_eq_true, Bool.and_eq_true, Bool.or_eq_true, Bool.not_eq_eq_eq_not, Bool.not_true,
+    decide_eq_false_iff_not] at h ⊢
+  intro kv hkv
+  obtain ⟨h1, h2⟩ := h kv hkv
+  refine ⟨h1, ?_⟩
+  rcases h2 with h2 | h2
+  · cases h2
+  · exact .inr h2
+
+/-- the hypothesis for sources with `&` implies the one for sources without -/
+theorem abbrKeysOKA_of_amp {x : PipelineX.Exts} {cfg : Pipeline.Cfg} {src : Str} (h : AbbrKeysOKAmp x cfg src) :
+    AbbrKeysOKA x cfg src :=
+  fun hxa abbrs hab => ⟨(h hxa abbrs hab).1, noFrnAbbr_mono_fc (h hxa abbrs hab).2⟩
 
 /-- without fenced_code the hypothesis of `C10X_partial_footnotes` implies the one for all eleven flags -/
 theorem abbrKeysOKA_of_F {x : PipelineX.Exts} (hfc : x.fencedCode = false) {cfg : Pipeline.Cfg} {src : Str}
@@ -289,5 +312,21 @@ theorem abbrKeysOKA_of_F {x : PipelineX.Exts} (hfc : x.fencedCode = false) {cfg 
         exact ⟨hk.1, noFrnAbbr_mono hk.2⟩
     · cases hab
   · cases hab
+
+/-- **end to end with every extension but fenced_code** (worker ff's statement; a corollary of the theorem for all
+    eleven flags) -/
+theorem convertX_noctl_all_fn {x : PipelineX.Exts} (hfc : x.fencedCode = false)
+    {cfg : Pipeline.Cfg} (hcfg : EscOK cfg.esc) {src out : Str}
+    (hd : C10DomainL cfg.tab src) (hq : Qw x.wikilinks (Normalize.normalize cfg.tab src))
+    (habbr : AbbrKeysOKF x cfg src) (h : PipelineX.convertX x cfg src = .ok out) : NoCtl out :=
+  convertX_noctl_eleven hcfg (fun h0 => by rw [hfc] at h0; cases h0) hd hq (abbrKeysOKA_of_F hfc habbr) h
+
+/-- **end to end with footnotes on** (fenced code off, every other flag arbitrary), on the domain of
+    `C10_partial_links` (with wikilinks: no `[` immediately before a blank) -/
+theorem convertX_noctl_fn {x : PipelineX.Exts} (hfc : x.fencedCode = false) (_hfn : x.footnotes = true)
+    {cfg : Pipeline.Cfg} (hcfg : EscOK cfg.esc) {src out : Str} (hd : C10DomainL cfg.tab src)
+    (hq : Qw x.wikilinks (Normalize.normalize cfg.tab src)) (habbr : AbbrKeysOKF x cfg src)
+    (h : PipelineX.convertX x cfg src = .ok out) : NoCtl out :=
+  convertX_noctl_all_fn hfc hcfg hd hq habbr h
 
 end MdVerif.NoCtlXF
